@@ -22,8 +22,10 @@ Alphabet == Alphabet1
 Punct == Punct1Toks
 
 ---------------------------------------------------------------------------
+NoCombP == [mods |-> <<>>, ns |-> "", nm |-> "", tag |-> "", ta |-> <<>>, bi |-> FALSE, fs |-> <<>>, fn |-> FALSE,
+            dns |-> "", dnm |-> "", da |-> <<>>, res |-> <<>>]
 (* pools of the derivation; the weight of a choice is the number of the sub-pool *)
-LowerNamesMC == {"a", "b1", "int", "v", "n", "x", "t", "k"}
+LowerNamesMC == {"a", "b", "b1", "int", "long", "string", "vector", "tuple", "pair", "v", "n", "x", "y", "z", "t", "k"}
 
 TyAtoms(w) == CASE w = 0 -> {Atom("", "int")}
                 [] w = 1 -> {Atom("", "Int"), Atom("ns", "v"), Atom("ns", "V"), Hash}
@@ -139,6 +141,21 @@ SemFields(w, nats, n) ==      \* nats: names of earlier #-fields; n: index of th
   \cup (IF w >= 3 THEN {FldRep(nm, <<>>, FALSE, "ar", "", <<N(3)>>, <<Fld("", <<>>, FALSE, t)>>) : t \in SemTy(w - 3)} ELSE {})
   \cup (IF w >= 4 THEN {FldRep(nm, <<>>, FALSE, "ar", "", <<N(1), N(2)>>, <<Fld("", <<>>, FALSE, t)>>) : t \in SemTy(w - 4)} ELSE {})
 
+(* the fixed prelude that precedes a derived schema when Sem = TRUE *)
+Prelude == <<
+  [NoCombP EXCEPT !.nm = "int", !.tag = "a8509bda", !.bi = TRUE, !.dnm = "Int"],
+  [NoCombP EXCEPT !.nm = "long", !.tag = "22076cba", !.bi = TRUE, !.dnm = "Long"],
+  [NoCombP EXCEPT !.nm = "string", !.tag = "b5286e24", !.bi = TRUE, !.dnm = "String"],
+  [NoCombP EXCEPT !.nm = "vector", !.tag = "1cb5c415", !.ta = <<[n |-> "t", nat |-> FALSE]>>,
+                  !.fs = <<Fld("", <<>>, FALSE, Hash), FldRep("", <<>>, FALSE, "none", "", <<>>, <<Fld("", <<>>, FALSE, Atom("", "t"))>>)>>,
+                  !.dnm = "Vector", !.da = <<"t">>],
+  [NoCombP EXCEPT !.nm = "tuple", !.tag = "9770768a", !.ta = <<[n |-> "t", nat |-> FALSE], [n |-> "n", nat |-> TRUE]>>,
+                  !.fs = <<FldRep("", <<>>, FALSE, "none", "", <<>>, <<Fld("", <<>>, FALSE, Atom("", "t"))>>)>>,
+                  !.dnm = "Tuple", !.da = <<"t", "n">>],
+  [NoCombP EXCEPT !.nm = "pair", !.ta = <<[n |-> "X", nat |-> FALSE], [n |-> "Y", nat |-> FALSE]>>,
+                  !.fs = <<Fld("a", <<>>, FALSE, Atom("", "X")), Fld("b", <<>>, FALSE, Atom("", "Y"))>>,
+                  !.dnm = "Pair", !.da = <<"X", "Y">>] >>
+
 ---------------------------------------------------------------------------
 Layouts == <<
   [sep |-> "min",  app |-> "paren", par |-> FALSE, bin |-> FALSE, ar |-> "plain", arrow |-> FALSE, lead |-> FALSE],
@@ -222,9 +239,14 @@ Payload ==
   CASE st.ph = "mut" -> [ph |-> "mut", how |-> st.how, toks |-> TokPairs(Spaced(st.sig)), exp |-> ExpectSpaced(st.sig, 1)]
     [] st.ph = "laid" ->
          LET lay == Layouts[st.l]
-             e == Expected(st.done, lay)
-             r == Render(st.done, lay)
+             full == IF Sem THEN Prelude \o st.done ELSE st.done
+             e == Expected(full, lay)
+             r == Render(full, lay)
          IN [ph |-> "laid", w |-> st.w, l |-> st.l, lay |-> lay, ast |-> e, toks |-> TokPairs(r), offs |-> Offs(r),
+             header |-> ListingHeader,
+             listing |-> [i \in 1..Len(e) |-> [listed |-> Listed(e[i]), line |-> ListingFileLine(e[i], "@TAG@", "@FILE@"),
+                                               coded |-> ListingLineV(e[i], "@TAG@", FALSE) \o " //  " \o "@FILE@",
+                                               denotes |-> ListingDenotes(e[i], "@TAG@")]],
              canon |-> [i \in 1..Len(e) |-> CanonText(e[i])],
              coded |-> [i \in 1..Len(e) |-> CanonTextAsCoded(e[i])],
              words |-> [i \in 1..Len(e) |-> Canon(e[i])],
